@@ -35,7 +35,8 @@ Inputs.  No input contains the sentinel text (its effect on string literals is r
 Keys:  c07:<reparse|tree-differs|sentinel|comment-leak>:<option that matters>:<dialect|base>:<cause>
   option that matters = the first option (order: max_text_width, leading_comma, pad, indent, comments, identify,
                         normalize_functions, pretty) whose reversion to its default alone makes the violation of that
-                        clause disappear; `combo` if no single reversion does
+                        clause disappear; if no single reversion does (several options are each sufficient): the first
+                        option that alone, with everything else at its default, reproduces it; `combo` otherwise
   cause               = reparse: error class + description without digits / quoted text;
                         tree-differs: first structural difference (c01.first_diff: `<Class>`, `<A>-><B>`, `<Class>.<arg>`);
                         sentinel: `in-output`;  comment-leak: `token-comment` | `text`
@@ -319,6 +320,15 @@ def matters(ctx, o, clause):
         o2[name] = DEFAULTS[name]
         st, v = evaluate(ctx, o2)
         if st == "ok" and clause not in v:
+            return name
+    # no single reversion helps: several options are each sufficient -> the first one that alone reproduces the violation
+    for name in REVERT_ORDER:
+        if o[name] == DEFAULTS[name] and type(o[name]) is type(DEFAULTS[name]):
+            continue
+        o2 = dict(DEFAULTS)
+        o2[name] = o[name]
+        st, v = evaluate(ctx, o2)
+        if st == "ok" and clause in v:
             return name
     return "combo"
 
